@@ -28,6 +28,15 @@ def make_run_case(rng):
         c["t_sample"] = [c["t_sample"][0]] if c["t_sample"] else [0.0]
     if rng.random() < 0.5:
         c["policy"] = "on_t_sample"
+    # coarse leaps: a tau-leap step may overshoot and leave negative amounts, which the next propensities inherit
+    if c["engine"] == "tauleap" and rng.random() < 0.4:
+        k = 2.0 ** rng.randint(3, 6)
+        c["dt"] *= k
+        c["t_max"] = c["dt"] * rng.randint(3, 12)
+        c["t_sample"] = [0.0, c["t_max"]]
+        c["state"] = [float(rng.choice([0, 3, 6, 10, 20])) for _ in c["state"]]
+        c["init"] = "none"
+        c["style"] = "coarse_leap"
     # degenerate grids: periodic axes (lengths 1 and 2 occur by construction of small grids)
     sp = c["desc"]["space"]
     if sp["type"] == "grid" and rng.random() < 0.5:
